@@ -65,7 +65,7 @@ def run_case(case: X.Case, bound: int, monitors: t.Sequence[str], limit: int = 2
     classes: t.Dict[tuple, list] = {}
     states: t.Set[int] = set()
 
-    def on_exec(x) -> None:
+    def on_exec(x) -> t.Optional[str]:
         for sym, detail in apply_monitors(x, ref, case, monitors):
             v = res.viol.get(sym)
             if v is None:
@@ -76,6 +76,12 @@ def run_case(case: X.Case, bound: int, monitors: t.Sequence[str], limit: int = 2
         if oc not in classes:
             classes[oc] = list(x.actions)
         states.update(qstates(x))
+        if x.status == 'livelock':
+            # a run that exceeds the step horizon has thousands of choice points: one such execution is the counterexample
+            # (C02 reports it); enumerating its deviations would take hours and add nothing
+            res.viol.setdefault('livelock', [1, f'run still busy after {x.steps} loop steps', list(x.actions)[:200]])
+            return 'stop'
+        return None
 
     try:
         st = X.explore(case, bound, reduce=reduce, limit=limit, on_exec=on_exec)
